@@ -178,6 +178,8 @@ def run(ctx, prog):
                 ctx.inst('C16.R3', b.short.split('::{')[0], 'ef override handed to the index unchanged #%d' % idx, ef in ('arg:ef_search_override', 'cap:ef_search_override'), 'ef argument: %s' % ef[:100])
     hi = ctx.body('C16.R3', 'HnswVectorIndex::knn_search_with_ef_cancel_impl')
     if hi is not None:
+        # role, found structurally: the beam width is the variable handed to the backend search (whatever it is called in the source)
+        util.bind_role(hi, 'ef_search', type_rx=r'^usize$', used_as=(r'AnnBackend::search_with_cancel$', 3))
         hv = flow.Origin(hi, stop_at_vars=True)
         efl = hi.var_local('ef_search')
         efo = flow.render(flow.Origin(hi).of_local(efl[0])) if efl else ''
@@ -197,6 +199,8 @@ def run(ctx, prog):
         if rootb is None:
             continue
         for b in prog.family(rootb):
+            # role, found structurally: the pruning bound is the f32 variable that is refreshed from the top of a search heap (a rename in /repo changes nothing here)
+            util.bind_role(b, 'worst_dist', type_rx=r'^f32$', origin_rx=r'SearchHeap::peek\(', full=True)
             wl = b.var_local('worst_dist')
             if not wl:
                 continue
